@@ -367,6 +367,13 @@ def writer_slots(ctx, cq: str):
             rv = ast.JoinedStr(values=vals)
             ast.copy_location(rv, rets[0].value)
             optional_tail = conds
+    from ..normal import string_expr
+    whole = string_expr(fn.node, rv)        # joins over field lists, concatenations and named parts read as one f-string
+    if whole is not None:
+        for x in ast.walk(whole):
+            if not hasattr(x, "lineno"):
+                ast.copy_location(x, rets[0].value)
+        rv = whole
     toks = C.fstring_tokens(rv)
     res = _resolver(M, fn.mod, fn.cls)
     comma = C.split_tokens(toks, ",")
